@@ -1405,15 +1405,21 @@ class World:
                 ks = list(range(nfr))
             if not ks:
                 raise Skip()
+            if self.dtn(ti) not in DT or (self.cls[ti] == "coll" and any(m is None for m in self.members(ti))):
+                raise Skip()
             for k in ks:
                 fi = S["frames"][k]
-                if KIND.get(self.dtn(fi), 9) > KIND.get(self.dtn(ti), -1) or not nice(self.full(fi), self.dtn(ti)):
+                if self.dtn(fi) not in DT or not nice(self.full(fi)):
                     raise Skip()
                 if st.data[k] is not self.objs[fi]:
                     raise RuntimeError("storage frame bookkeeping of the harness is off")
-            if self.cls[ti] == "coll" and (any(m is None for m in self.members(ti))
-                                           or not all(self.converts_exactly(m, self.dtn(ti)) for m in self.members(ti))):
-                raise Skip()
+                # storage/base.py:286-293 (since /repo d0418b1): the template is copied as it is if it can hold
+                # the frame, otherwise converted to result_type(frame, template) - frames are never narrowed.
+                # The copy of a collection template converts the *members'* data to that dtype.
+                fdt, tdt = self.full(fi).dtype, self.full(ti).dtype
+                T = self.dtn(ti) if np.can_cast(fdt, tdt, casting="safe") else DTN.get(np.dtype(np.result_type(fdt, tdt)))
+                if T is None or (self.cls[ti] == "coll" and not all(self.converts_exactly(m, T) for m in self.members(ti))):
+                    raise Skip()
             if what == "read":
                 res, err = self.try_real(lambda: [st[ks[0]]])
             elif d["how"] == "slice":
